@@ -565,7 +565,7 @@ def run(tier, seed, pool, t0):
     hang = False
     try:
         for kind in ('list', 'block', 'managed', 'xlist') if not os.environ.get('VERIF_C13_ONLY_RACES') else ():
-            cs = ConfigStats('histories', dict(object=kind, depth=depth if kind == 'list' else depth - 1))
+            cs = ConfigStats('histories', dict(object=kind, depth=depth if kind == 'list' else (depth - 2 if kind == 'xlist' else depth - 1)))
             cs.t0 = time.time()
             seen = {INIT: []}
             frontier = [INIT]
